@@ -26,7 +26,7 @@ def _strip_tests(src):
 
 def _enum_variants(src, name):
     m = _need(re.search(r"pub enum %s \{(.*?)\n\}" % name, src, re.S), "enum " + name)
-    body = re.sub(r"///.*", "", m.group(1))
+    body = re.sub(r"//.*", "", m.group(1))
     body = re.sub(r"#\[.*?\]", "", body)
     # remove nested braces/parens content
     depth, out = 0, []
